@@ -30,7 +30,7 @@ ALPHABET = (
     [("good", n, k, i) for (n, k) in ((2, 1), (2, 2), (3, 1), (3, 2), (3, 3)) for i in (-1, 1)]
     + [("good", 2, 1, 2), ("good", 2, 2, 2), ("good", 3, 3, 2), ("good", 3, 2, 2)]
     + [("good", 1, 1, -1), ("good", 1, 1, 1)]
-    + [("good", 2, 0, 1), ("good", 2, 3, 1), ("good", 0, 1, -1)]          # numbering outside 1 <= k <= n
+    + [("good", 2, 0, 1), ("good", 2, 3, 1), ("good", 0, 1, -1), ("good", 1, 2, 1), ("good", 1, 0, 1)]   # numbering outside 1 <= k <= n
     + [("badform", 0, 0, -1), ("badck", 2, 2, 1), ("badck", 2, 1, 1)]
 )
 REMOVABLE = {"reject_form", "reject_checksum", "reject_seq_id", "reject_seq_no", "reject_cap", "single"}
@@ -180,7 +180,8 @@ def _walk(prop, tier, build, depth, stride, dec):
                     why, tags = "payload of %s differs from the fragments of its group" % cls, ["C05", "C06"] if cls == "deliver" else ["C05"]
                 if why:
                     # attribution: does the mismatch disappear when the removable lines before it are removed?
-                    removable_before = [i for i in range(pos) if exp[i][0] in REMOVABLE and (not exp[i][3] or rejected[i])]
+                    removable_before = [i for i in range(pos) if exp[i][0] in REMOVABLE
+                                        and (not exp[i][3] or rejected[i] or exp[i][0] == "single")]
                     if removable_before and tags != ["C01"]:
                         reduced = [p[i] for i in range(pos + 1) if i not in removable_before]
                         if _single_path_ok(rec, table, reduced, wdir, dec):
